@@ -146,6 +146,12 @@ pub fn cmd_miri(prop: &str, seed: u64, n: u64) {
                     if r.property != p {
                         continue;
                     }
+                    if r.scenario.get("asyncd").and_then(|v| v.as_bool()) == Some(true) {
+                        // without the baton the caller-side oracles of the async family are not
+                        // atomic with respect to the background job: those scenarios run here
+                        // for Miri's own checks (data races, aliasing) only
+                        continue;
+                    }
                     if crate::driver::match_known(&kfs, &r.property, &r.class, &r.msg).is_some() {
                         println!("MIRI-TIER {} known-finding {}", p, r.class);
                         continue;
